@@ -746,6 +746,9 @@ pub fn run_scenario(s: &Scn) -> Value {
             let total: usize = calls.iter().filter(|c| c.op == "write").map(|c| c.n).sum();
             let preset_w = s.preset;
             let pd_w = s.preset_dict();
+            // dictionary of the writer: by default no larger than the unit; `dict_size` sets it explicitly (a dictionary
+            // larger than the configured unit size makes the constructors raise the unit size to it)
+            let wdict = if s.dict_size != 0 { s.dict_size.max(4096) } else { MT_DICT.min(unit.max(4096) as u32) };
             let input = if preset_w {
                 // data that resembles the preset dictionary: a unit encoded against it would refer back into it
                 let p = s.preset_dict();
@@ -814,12 +817,12 @@ pub fn run_scenario(s: &Scn) -> Value {
                 }
                 if lz {
                     let mut o = LZIPOptions::with_preset(0);
-                    o.lzma_options.dict_size = MT_DICT.min(unit.max(4096) as u32);
+                    o.lzma_options.dict_size = wdict;
                     o.member_size = NonZeroU64::new(unit as u64);
                     drive!(LZIPWriterMT::new(sink, o, workers).unwrap());
                 } else {
                     let mut o = lzma2_opts();
-                    o.lzma_options.dict_size = MT_DICT.min(unit.max(4096) as u32);
+                    o.lzma_options.dict_size = wdict;
                     o.chunk_size = NonZeroU64::new(unit as u64);
                     if preset_w {
                         o.lzma_options.preset_dict = Some(pd_w.clone());
@@ -893,7 +896,7 @@ fn finish_result(s: &Scn, expected: &[Vec<u8>], rp: Report, g: &GRep, o: &Obs) -
         } else {
             let mut out = Vec::new();
             let pd = s.preset_dict();
-            let mut r = LZMA2Reader::new(o.compressed.as_slice(), MT_DICT, if s.preset { Some(pd.as_slice()) } else { None });
+            let mut r = LZMA2Reader::new(o.compressed.as_slice(), MT_DICT.max(s.dict_size), if s.preset { Some(pd.as_slice()) } else { None });
             let ok = r.read_to_end(&mut out).is_ok();
             (ok, out, count_lzma2_units(&o.compressed))
         };
